@@ -45,6 +45,11 @@ SupportedVerbs == {"GET", "POST", "PUT", "DELETE", "PATCH"}
 
 \* ---- structure ------------------------------------------------------------
 CtrlOf(p, m)    == CHOOSE c \in Range(p.ctrls) : c.id = m.ctrl
+\* controllerGlobs: a controller whose file no glob matches ("outside") contributes nothing - neither do its methods -
+\* however its package came to be loaded (packages named by imported model types are loaded whole, lazily)
+Outside(c) == "outside" \in DOMAIN c /\ c.outside
+Scoped(p) == [p EXCEPT !.ctrls   = SelectSeq(@, LAMBDA c : ~Outside(c)),
+                       !.methods = SelectSeq(@, LAMBDA m : ~Outside(CHOOSE c \in Range(p.ctrls) : c.id = m.ctrl))]
 MethodsOf(p, c) == {m \in Range(p.methods) : m.ctrl = c.id}          \* the methods whose receiver is THAT controller
 IsApi(m)        == m.verb # "" /\ m.route # ""
 FullText(c, m)  == c.prefix \o m.route
